@@ -310,3 +310,137 @@ Qed.
 Lemma lex_start_has_nul file contents major minor checked :
   In 0 (lx_input (lex_start file contents major minor checked)).
 Proof. cbn. apply in_or_app. right. left. reflexivity. Qed.
+
+(* ---------- C13: the offsets reported by the scanners stay inside the buffer ---------- *)
+Lemma eat_ws_bound_len : forall n s k, (length s <= n)%nat -> eat_ws s = Some k -> (k <= length s)%nat.
+Proof.
+  induction n as [|n IH]; intros s k Hl Hk.
+  - destruct s; [discriminate Hk|cbn in Hl; lia].
+  - destruct s as [|c s1]; [discriminate Hk|]. cbn [eat_ws] in Hk. cbn [length] in *.
+    destruct (N.eqb c 32).
+    { destruct (eat_ws s1) as [k1|] eqn:E; [|discriminate Hk]. injection Hk as <-.
+      specialize (IH s1 k1 ltac:(lia) E). lia. }
+    destruct (N.eqb c 36); [|injection Hk as <-; lia].
+    destruct s1 as [|d s2]; [discriminate Hk|]. cbn [length] in *.
+    destruct (N.eqb d 10).
+    { destruct (eat_ws s2) as [k1|] eqn:E; [|discriminate Hk]. injection Hk as <-.
+      specialize (IH s2 k1 ltac:(lia) E). lia. }
+    destruct (N.eqb d 13); [|injection Hk as <-; lia].
+    destruct s2 as [|e s3]; [discriminate Hk|]. cbn [length] in *.
+    destruct (N.eqb e 10); [|injection Hk as <-; lia].
+    destruct (eat_ws s3) as [k1|] eqn:E; [|discriminate Hk]. injection Hk as <-.
+    specialize (IH s3 k1 ltac:(lia) E). lia.
+Qed.
+
+Theorem C13_eat_ws_bound s k : eat_ws s = Some k -> (k <= length s)%nat.
+Proof. apply (eat_ws_bound_len (length s)). lia. Qed.
+
+Lemma span_varname_bound : forall s w r, span_varname s = Some (w, r) -> (length w <= length s)%nat.
+Proof.
+  induction s as [|c s IH]; intros w r H; [discriminate H|].
+  cbn [span_varname] in H. destruct (is_varname_char c).
+  - destruct (span_varname s) as [[w' r']|] eqn:E; [|discriminate H].
+    injection H as <- <-. specialize (IH w' r' eq_refl). cbn [length]. lia.
+  - injection H as <- <-. cbn [length]. lia.
+Qed.
+
+Lemma scan_plain_bound c s t n : scan_plain c s = Some (t, n) -> (1 <= n <= S (length s))%nat.
+Proof.
+  unfold scan_plain. intros H.
+  destruct (is_varname_char c).
+  { destruct (span_varname s) as [[w r]|] eqn:E; [|discriminate H]. injection H as <- <-.
+    pose proof (span_varname_bound s w r E). lia. }
+  destruct (N.eqb c 61); [injection H as <- <-; lia|].
+  destruct (N.eqb c 58); [injection H as <- <-; lia|].
+  destruct (N.eqb c 124).
+  { destruct s as [|d s']; [discriminate H|]. cbn [length].
+    destruct (N.eqb d 64); [injection H as <- <-; lia|].
+    destruct (N.eqb d 124); injection H as <- <-; lia. }
+  destruct (N.eqb c 0); injection H as <- <-; lia.
+Qed.
+
+Definition rtmode_wf (m : rtmode) (start pos : nat) : Prop :=
+  (start <= pos)%nat /\ match m with RT_spaces => True | RT_comment hp => (start <= hp < pos)%nat end.
+
+Theorem C13_read_token_bounds : forall s start pos m t a b,
+  rtmode_wf m start pos ->
+  read_token_aux s start pos m = TR t a b ->
+  (a < b <= pos + length s)%nat.
+Proof.
+  induction s as [|c s IH]; intros start pos m t a b Hwf H; [discriminate H|].
+  cbn [read_token_aux] in H. cbn [length]. destruct Hwf as [Hsp Hm]. destruct m as [|hp].
+  - destruct (N.eqb c 32).
+    { apply IH in H; [lia|]. split; [lia|exact I]. }
+    destruct (N.eqb c 35).
+    { apply IH in H; [lia|]. split; [lia|]. cbn. lia. }
+    destruct (N.eqb c 10); [injection H as <- <- <-; lia|].
+    assert (Hfb : forall r,
+      (if Nat.ltb start pos then TR T_INDENT start pos
+       else match scan_plain c s with
+            | Some (t0, n) => TR t0 start (start + n)
+            | None => TR_overrun
+            end) = r -> r = TR t a b -> (a < b <= pos + S (length s))%nat).
+    { intros r Hr Hrt. subst r. destruct (Nat.ltb_spec start pos) as [Hlt|Hge].
+      - injection Hrt as <- <- <-. lia.
+      - destruct (scan_plain c s) as [[t0 n]|] eqn:E; [|discriminate Hrt].
+        injection Hrt as <- <- <-. pose proof (scan_plain_bound c s t0 n E). lia. }
+    destruct (N.eqb c 13).
+    + destruct s as [|d s']; [discriminate H|]. cbn [length] in *.
+      destruct (N.eqb d 10); [injection H as <- <- <-; lia|].
+      eapply Hfb; [reflexivity|exact H].
+    + eapply Hfb; [reflexivity|exact H].
+  - destruct (N.eqb c 10).
+    { apply IH in H; [lia|]. split; [lia|exact I]. }
+    destruct (N.eqb c 0).
+    { destruct (Nat.ltb_spec start hp) as [Hlt|Hge]; injection H as <- <- <-; lia. }
+    apply IH in H; [lia|]. split; [lia|]. cbn. lia.
+Qed.
+
+Definition evmode_wf (m : evmode) (pos : nat) : Prop :=
+  match m with EM_cr cp => (cp < pos)%nat | _ => True end.
+
+Theorem C13_read_eval_bounds path ok : forall s pos m es caret es' stop last caret',
+  evmode_wf m pos ->
+  read_eval_aux path ok s pos m es caret = EV_ok es' stop last caret' ->
+  (last <= stop <= pos + length s)%nat.
+Proof.
+  induction s as [|c s IH]; intros pos m es caret es' stop last caret' Hwf H; [discriminate H|].
+  cbn [length].
+  assert (Hnormal : forall es0,
+    (if N.eqb c 36 then read_eval_aux path ok s (S pos) (EM_dollar pos) es0 caret
+     else if N.eqb c 13 then read_eval_aux path ok s (S pos) (EM_cr pos) es0 caret
+     else if N.eqb c 0 then EV_err LE_unexpected_eof (Some pos)
+     else if N.eqb c 32 || N.eqb c 58 || N.eqb c 124 || N.eqb c 10 then
+       if path then EV_ok es0 pos pos caret
+       else if N.eqb c 10 then EV_ok es0 (S pos) pos caret
+       else read_eval_aux path ok s (S pos) EM_normal (add_text es0 [c]) caret
+     else read_eval_aux path ok s (S pos) EM_normal (add_text es0 [c]) caret)
+    = EV_ok es' stop last caret' -> (last <= stop <= pos + S (length s))%nat).
+  { intros es0 H0.
+    destruct (N.eqb c 36). { apply IH in H0; [lia|exact I]. }
+    destruct (N.eqb c 13). { apply IH in H0; [lia|cbn; lia]. }
+    destruct (N.eqb c 0); [discriminate H0|].
+    destruct (N.eqb c 32 || N.eqb c 58 || N.eqb c 124 || N.eqb c 10).
+    - destruct path; [injection H0 as _ <- <- _; lia|].
+      destruct (N.eqb c 10); [injection H0 as _ <- <- _; lia|]. apply IH in H0; [lia|exact I].
+    - apply IH in H0; [lia|exact I]. }
+  cbn [read_eval_aux] in H.
+  destruct m as [|dp|dp| |v|dp v|cp].
+  - apply (Hnormal es H).
+  - destruct (N.eqb c 36). { apply IH in H; [lia|exact I]. }
+    destruct (N.eqb c 32). { apply IH in H; [lia|exact I]. }
+    destruct (N.eqb c 58). { apply IH in H; [lia|exact I]. }
+    destruct (N.eqb c 94). { destruct ok; [apply IH in H; [lia|exact I]|discriminate H]. }
+    destruct (N.eqb c 10). { apply IH in H; [lia|exact I]. }
+    destruct (N.eqb c 13). { apply IH in H; [lia|exact I]. }
+    destruct (N.eqb c 123). { apply IH in H; [lia|exact I]. }
+    destruct (is_simple_varname_char c); [apply IH in H; [lia|exact I]|discriminate H].
+  - destruct (N.eqb c 10); [apply IH in H; [lia|exact I]|discriminate H].
+  - destruct (N.eqb c 32); [apply IH in H; [lia|exact I]|apply (Hnormal es H)].
+  - destruct (is_simple_varname_char c); [apply IH in H; [lia|exact I]|apply (Hnormal _ H)].
+  - destruct (is_varname_char c). { apply IH in H; [lia|exact I]. }
+    destruct (N.eqb c 125 && negb match v with [] => true | _ :: _ => false end);
+      [apply IH in H; [lia|exact I]|discriminate H].
+  - cbn in Hwf. destruct (N.eqb c 10); [|discriminate H].
+    destruct path; injection H as _ <- <- _; lia.
+Qed.
